@@ -27,13 +27,14 @@ struct Sink<'a> {
     calls: usize,
     all_at_pos: bool,
     failed: bool,
+    zero_streak: usize,
     detail: Option<Vec<Value>>,
 }
 
 impl<'a> Sink<'a> {
     fn new(canonical: &'a [u8], mode: Mode, detail: bool) -> Sink<'a> {
         let seed = if let Mode::Random(s) = mode { s } else { 1 };
-        Sink { canonical, emitted: vec![], mode, rng: Rng::new(seed), calls: 0, all_at_pos: true, failed: false, detail: if detail { Some(vec![]) } else { None } }
+        Sink { canonical, emitted: vec![], mode, rng: Rng::new(seed), calls: 0, all_at_pos: true, failed: false, zero_streak: 0, detail: if detail { Some(vec![]) } else { None } }
     }
 }
 
@@ -62,7 +63,15 @@ impl Write for Sink<'_> {
         match resp {
             "accept" => { self.emitted.extend_from_slice(&buf[..k]); Ok(k) }
             "interrupted" => Err(io::Error::from(io::ErrorKind::Interrupted)),
-            "zero" => { self.failed = true; Ok(0) }
+            "zero" => {
+                self.failed = true;
+                self.zero_streak += 1;
+                // a writer that keeps offering after Ok(0) never ends: stop it here (reported as a panic of the run)
+                if self.zero_streak > 64 {
+                    panic!("the writer keeps calling write() after the sink returned Ok(0) {} times", self.zero_streak);
+                }
+                Ok(0)
+            }
             _ => { self.failed = true; Err(io::Error::new(io::ErrorKind::Other, "scripted failure")) }
         }
     }
